@@ -2,19 +2,20 @@
 
 Decided (structural necessary conditions): derived / metadata state that is serialised with the
 table is never trusted across operations.
-  C10.recount  every decision that reads `variant_count` is dominated, inside the same call, by a
-               recount in the counting mode that decision needs (typestate: load -> unknown mode)
+  C10.func     small-scope abstract interpretation: every sequence (length <= 3, thorough 4) of delete / weed / reverse weed /
+               frequency, constant, ambiguity, ambiguity-as-missing and masking filters applied to an abstract array equals
+               the same sequence on the plain table after every step; single operations are also run with arbitrary
+               stored counts (a loaded file's counts carry an unknown counting mode) and must not depend on them
   C10.readers  who-may-read table for the three non-content fields (variant_count, ska_version, k_bits)
-  C10.struct   a structural change of the column set is followed by a recount before return
   C10.fields   (informational) the serialised field set, classified
-Not decided: equality with the plain-table model over all operation histories.
+Not decided: histories longer than the bound / tables wider than 3 samples; save/reload is serde (trusted).
 """
 from ..facts import AnchorLost
 from ..expr import ExprBuilder, show
 from .util import calls_named, reachable_without, field_writes
 
-EXPLANATION = ('Typestate/dominance rule for the serialised derived field variant_count (count mode unknown after load), '
-               'who-may-read tables for non-content fields, recount-after-restructure.')
+EXPLANATION = ('Bounded operation histories interpreted abstractly against the plain-table model; arbitrary stored counts; '
+               'who-may-read tables for non-content fields.')
 ASSUMPTIONS = ['operations are functions of (k, rc, names, k-mers, bases) apart from the fields audited here']
 MSA = 'merge_ska_array::MergeSkaArray'
 CONTENT = {'k': 'content', 'rc': 'content', 'names': 'content', 'split_kmers': 'content', 'variants': 'content',
@@ -114,100 +115,11 @@ def run(facts, chk, tier, only=None):
         else:
             chk.ok('C10.readers', 'C10.readers:update_counts-len', '', 'old counts used only for a capacity hint')
 
-    check_recount(facts, chk, 'C10.recount')
-    check_struct(facts, chk)
-
-
-def check_recount(facts, chk, rule):
-    vc = facts.field_index(MSA, 'variant_count')
-
-    # ---------------------------------------------------------------- recount typestate in filter
-    def recount():
-        f = facts.fn(MSA + '::filter')
-        eb = ExprBuilder(f)
-        flag = None
-        for i in range(1, f.arg_count + 1):
-            if f.local_names.get(i) == 'filter_ambig_as_missing':
-                flag = i
-        if flag is None:
-            raise AnchorLost('filter: parameter filter_ambig_as_missing not found')
-        reads = [(bb, node) for b, bb, node, k in msa_field_accesses(facts, vc) if b is f and k == 'read']
-        if not reads:
-            raise AnchorLost('filter does not read variant_count any more')
-        ucalls = [(bb, t) for bb, t in f.calls() if (t.callee.name or '') == MSA + '::update_counts']
-        res = []
-        for v in (0, 1):
-            # prune switches decided by the flag
-            dead = set()
-            for blk in f.blocks:
-                t = blk.term
-                if blk.idx in f.live_blocks() and t.k == 'switch':
-                    e = eb.operand(t.discr)
-                    if e == ('arg', flag, 'filter_ambig_as_missing'):
-                        taken = next((tg for val, tg in t.targets if val == v), t.otherwise)
-                        for s in set(t.succs()):
-                            if s != taken:
-                                dead.add((blk.idx, s))
-            # recount sites valid for this mode: argument equals the flag, or the constant v
-            good_sites = set()
-            bad_sites = []
-            for bb, t in ucalls:
-                a = eb.operand(t.args[1])
-                if a == ('arg', flag, 'filter_ambig_as_missing') or (a[0] == 'const' and a[1] == v):
-                    good_sites.add(bb)
-                else:
-                    bad_sites.append((bb, t, a))
-            for rb, node in reads:
-                reach = reachable_without(f, 0, avoid_blocks=good_sites, avoid_edges=dead)
-                # read block reachable without passing a valid recount?
-                unguarded = rb in reach
-                # a recount in the wrong mode between the valid recount and the read also breaks it
-                wrong_between = False
-                for bb, t, a in bad_sites:
-                    if bb in reachable_without(f, 0, avoid_edges=dead) and rb in reachable_without(f, t.target, avoid_edges=dead) \
-                            and not any(g in reachable_without(f, t.target, avoid_edges=dead) and
-                                        rb in reachable_without(f, f.blocks[g].term.target, avoid_edges=dead) for g in good_sites):
-                        wrong_between = True
-                res.append((v, rb, node.span, unguarded, wrong_between))
-        return res, [t.span for _, t in ucalls]
-    r = chk.guard(rule, rule + ':filter', recount)
-    if r is not None:
-        res, sites = r
-        bad = [x for x in res if x[3] or x[4]]
-        if bad:
-            v, rb, sp, ung, wb = bad[0]
-            chk.violation(rule, rule + ':filter', where=sp,
-                          detail='MergeSkaArray::filter reads variant_count (decides `count >= min_count`) with filter_ambig_as_missing=%s '
-                                 'without a preceding update_counts(%s) on some path: the counts then come from the file (or an earlier '
-                                 'operation) in an unknown counting mode' % (bool(v), 'true' if v else 'false'),
-                          construct=dict(function=MSA + '::filter', read=sp, mode=v, recount_sites=sites))
-        else:
-            chk.ok(rule, rule + ':filter', res[0][2], 'both modes: every read of variant_count is dominated by update_counts(mode)',
-                   evals=len(res), sample=dict(function='filter', reads=[x[2] for x in res], recounts=sites))
-
-
-
-def check_struct(facts, chk):
-    # ---------------------------------------------------------------- recount after restructuring
-    def struct():
-        out = []
-        vi = facts.field_index(MSA, 'variants')
-        for fn in (MSA + '::delete_samples',):
-            b = facts.fn(fn)
-            w = field_writes(b, 1, vi)
-            if not w:
-                raise AnchorLost('%s no longer assigns self.variants' % fn)
-            uc = [bb for bb, t in b.calls() if (t.callee.name or '') == MSA + '::update_counts']
-            for wb, s in w:
-                ok = all(rb not in reachable_without(b, wb, avoid_blocks=uc) for rb in b.return_blocks())
-                out.append((fn, s.span, ok))
-        return out
-    r = chk.guard('C10.struct', 'C10.struct:delete_samples', struct)
-    if r is not None:
-        for fn, sp, ok in r:
-            if ok:
-                chk.ok('C10.struct', 'C10.struct:%s' % fn, sp, 'every path from `self.variants = ..` to return passes update_counts',
-                       sample=dict(function=fn, assign=sp))
-            else:
-                chk.violation('C10.struct', 'C10.struct:%s' % fn, where=sp,
-                              detail='%s replaces the column set and can return without update_counts: stale counts / empty rows persist' % fn)
+    # ---------------------------------------------------------------- histories against the plain-table model
+    from . import tableops
+    chk.guard('C10.func', 'C10.func:histories', lambda: tableops.check_histories(facts, chk, 'C10.func', tier))
+    # single operations with arbitrary stored counts (what a loaded file may carry)
+    chk.guard('C10.func', 'C10.func:filter', lambda: tableops.check_filter(facts, chk, 'C10.func', 'quick'))
+    chk.guard('C10.func', 'C10.func:delete_samples', lambda: tableops.check_delete(facts, chk, 'C10.func', 'quick'))
+    chk.guard('C10.func', 'C10.func:weed', lambda: tableops.check_weed(facts, chk, 'C10.func', 'quick'))
+    chk.guard('C10.func', 'C10.func:merge', lambda: tableops.check_merge_pipeline(facts, chk, 'C10.func', 'quick'))
